@@ -105,6 +105,7 @@ func main() {
 func body(w *run.Worker) {
 	enumEngine(w)
 	seqEngine(w)
+	instEngine(w)
 	localEngine(w)
 	concEngine(w)
 }
@@ -113,7 +114,37 @@ func body(w *run.Worker) {
 
 func mkObject(tag, id uint64, size int, inst string) object {
 	data := gen.UniqueBlob(tag, id, size)
-	return object{data: data, d: gen.SHA256Digest(inst, data)}
+	return object{data: data, d: gen.SHA256Digest(inst, data), content: int(id)}
+}
+
+// sameContents returns object `of` under another instance name: "the same
+// contents under two instance names" (two tenants uploading the same file).
+// For replicas keyed without the instance name it is the same object, for
+// replicas that distinguish instance names it is a second, independent one.
+func sameContents(r *gen.Rng, of object, names []string) object {
+	for {
+		in := names[r.Intn(len(names))]
+		if in != of.d.GetInstanceName().String() {
+			return object{data: of.data, d: gen.SHA256Digest(in, of.data), content: of.content}
+		}
+	}
+}
+
+// addObject appends a fresh object or, one time in `aliasOneIn`, the contents
+// of an earlier object under another instance name (never a duplicate digest).
+func addObject(r *gen.Rng, sc *scenario, fresh object, names []string, aliasOneIn int) *object {
+	o := fresh
+	if len(sc.objs) > 0 && r.Chance(1, aliasOneIn) {
+		o = sameContents(r, sc.objs[r.Intn(len(sc.objs))], names)
+		for _, p := range sc.objs {
+			if p.d == o.d {
+				o = fresh
+				break
+			}
+		}
+	}
+	sc.objs = append(sc.objs, o)
+	return &sc.objs[len(sc.objs)-1]
 }
 
 func randomOps(r *gen.Rng, nobj, n int, composite bool) []operation {
@@ -152,13 +183,15 @@ func randomFaults(r *gen.Rng, sc *scenario, maxIdx int) {
 	n := r.Pick(0, 0, 1, 1, 1, 2)
 	for i := 0; i < n; i++ {
 		f := fault{code: faultCodes[r.Intn(len(faultCodes))]}
-		switch k := r.Intn(10); {
+		switch k := r.Intn(12); {
 		case k < 5:
 			f.kind = faultEarly
 		case k < 8:
 			f.kind = faultLate
-		default:
+		case k < 10:
 			f.kind = faultNotFound
+		default:
+			f.kind = faultLose
 		}
 		sc.faults[faultKey{r.Intn(2), r.Intn(maxIdx)}] = f
 	}
@@ -172,6 +205,8 @@ func randomRepl(r *gen.Rng, sc *scenario) {
 	}
 	sc.metrics = r.Chance(1, 3)
 	sc.preRounds = r.Intn(2)
+	sc.cfgBuilt = r.Chance(1, 2)
+	sc.keyed = r.Chance(1, 3)
 }
 
 // ---- seq -------------------------------------------------------------------
@@ -183,15 +218,78 @@ func seqEngine(w *run.Worker) {
 		randomRepl(r, sc)
 		nobj := r.Range(1, 4)
 		for i := 0; i < nobj; i++ {
-			o := mkObject(uint64(c.Index)<<4|uint64(w.Index), uint64(i), r.Pick(0, 1, 2, 5, 17, 40, 200), instanceNames[r.Intn(len(instanceNames))])
+			o := addObject(r, sc, mkObject(uint64(c.Index)<<4|uint64(w.Index), uint64(i), r.Pick(0, 1, 2, 5, 17, 40, 200), instanceNames[r.Intn(len(instanceNames))]), instanceNames, 4)
 			o.place = r.Intn(4)
-			sc.objs = append(sc.objs, o)
 		}
 		sc.ops = randomOps(r, nobj, r.Range(1, 8), true)
 		randomFaults(r, sc, 14)
 		c.Desc("%v", sc)
 		if c.Index == 0 {
 			w.Sample(map[string]any{"engine": "seq", "scenario": sc.String()})
+		}
+		if wd, ok := build(c, w, sc); ok {
+			wd.run()
+		}
+	})
+}
+
+// ---- inst -------------------------------------------------------------------
+
+// tenantNames: instance names with and without a common prefix ("a" is a
+// parent of "a/b": a hierarchical local store shows an object of "a" under
+// "a/b" as well; "" is a parent of every name).
+var tenantNames = []string{"", "x", "a", "a/b", "tenant-two"}
+
+// instEngine: "all initial placements of each object" where the objects are
+// the SAME contents under several instance names, over replicas that (mostly)
+// distinguish instance names, with the replicators (mostly) built by the
+// configuration layer. Every instance name of the contents has its own
+// placement; the operations visit them one after the other, so that a strategy
+// that remembers what it copied meets contents it knows under a name it does
+// not know.
+func instEngine(w *run.Worker) {
+	w.Cases("inst", w.N(2400, 60000), func(c *run.Case) {
+		r := c.Rng
+		sc := &scenario{kinds: [2]string{"model", "model"}, hashInit: r.Uint64()}
+		if r.Chance(1, 3) {
+			for i := 0; i < 2; i++ {
+				sc.kinds[i] = []string{"model", "localInMemory", "localOnDevice"}[r.Intn(3)]
+				k := blocksOnDevice
+				if sc.kinds[i] == "localInMemory" {
+					k = blocksInMemory
+				}
+				sc.lcfg[i] = localCfg{kind: k, blockSize: 1024, old: r.Range(3, 5), current: r.Range(1, 2), newB: r.Range(1, 2), records: 1021}
+			}
+		}
+		randomRepl(r, sc)
+		sc.keyed = r.Chance(5, 6)
+		sc.cfgBuilt = r.Chance(2, 3)
+		ncontents := r.Range(1, 2)
+		nobj := r.Range(2, 4)
+		for i := 0; i < nobj; i++ {
+			fresh := mkObject(uint64(c.Index)<<4|uint64(w.Index)|1<<42, uint64(i%ncontents), r.Pick(1, 5, 17, 40), tenantNames[r.Intn(len(tenantNames))])
+			if i >= ncontents {
+				fresh = sameContents(r, sc.objs[i%ncontents], tenantNames)
+			}
+			dup := false
+			for _, p := range sc.objs {
+				dup = dup || p.d == fresh.d
+			}
+			if dup {
+				continue
+			}
+			fresh.place = r.Pick(0, 1, 1, 1, 2, 2, 2, 3)
+			fresh.old = [2]bool{r.Chance(1, 3), r.Chance(1, 3)}
+			sc.objs = append(sc.objs, fresh)
+		}
+		sc.ops = randomOps(r, len(sc.objs), r.Range(2, 7), true)
+		sc.faults = map[faultKey]fault{}
+		if r.Chance(1, 4) {
+			randomFaults(r, sc, 12)
+		}
+		c.Desc("%v", sc)
+		if c.Index == 0 {
+			w.Sample(map[string]any{"engine": "inst", "scenario": sc.String()})
 		}
 		if wd, ok := build(c, w, sc); ok {
 			wd.run()
@@ -223,10 +321,9 @@ func localEngine(w *run.Worker) {
 		randomRepl(r, sc)
 		nobj := r.Range(1, 4)
 		for i := 0; i < nobj; i++ {
-			o := mkObject(uint64(c.Index)<<4|uint64(w.Index)|1<<40, uint64(i), r.Pick(1, 2, 5, 17, 40), instanceNames[r.Intn(len(instanceNames))])
+			o := addObject(r, sc, mkObject(uint64(c.Index)<<4|uint64(w.Index)|1<<40, uint64(i), r.Pick(1, 2, 5, 17, 40), instanceNames[r.Intn(len(instanceNames))]), instanceNames, 4)
 			o.place = r.Pick(0, 1, 1, 2, 2, 3)
 			o.old = [2]bool{r.Chance(2, 3), r.Chance(2, 3)}
-			sc.objs = append(sc.objs, o)
 		}
 		sc.ops = randomOps(r, nobj, r.Range(1, 6), true)
 		sc.faults = map[faultKey]fault{}
@@ -328,6 +425,16 @@ func enumEngine(w *run.Worker) {
 		if wd.reps[0].stormed() || wd.reps[1].stormed() {
 			return // already reported; the failure positions would be meaningless
 		}
+		// The calls of the fault-free run that were acknowledged uploads: the
+		// positions at which "accepts the Put, then has lost the object" acts.
+		ackedPut := [2]map[int]bool{{}, {}}
+		for rep := 0; rep < 2; rep++ {
+			for _, cr := range wd.reps[rep].logFrom(0) {
+				if cr.op == "Put" && cr.result == "ok" {
+					ackedPut[rep][cr.idx] = true
+				}
+			}
+		}
 		for rep := 0; rep < 2; rep++ {
 			for idx := 0; idx < n[rep]; idx++ {
 				for _, code := range faultCodes {
@@ -347,10 +454,20 @@ func enumEngine(w *run.Worker) {
 				if wd, ok := build(c, w, sc); ok {
 					wd.run()
 				}
+				// The replica stores and acknowledges the upload of this call and
+				// has lost the object when it is looked up next.
+				if ackedPut[rep][idx] {
+					sc := mk(map[faultKey]fault{{rep, idx}: {kind: faultLose}})
+					c.Logf("=== %v", sc.faultString())
+					if wd, ok := build(c, w, sc); ok {
+						wd.run()
+					}
+					w.Count("enum_lost_upload_positions", 1)
+				}
 			}
 		}
 	})
-	w.Exhaustive(fmt.Sprintf("enum: placements x sequences(len<=%d) x replicators x alternation offset x every reachable failure position x 4 codes x early/late", maxLen), true)
+	w.Exhaustive(fmt.Sprintf("enum: placements x sequences(len<=%d) x replicators x alternation offset x every reachable failure position x (4 codes x early/late, spurious NOT_FOUND, acknowledged upload lost)", maxLen), true)
 }
 
 // ---- conc ------------------------------------------------------------------
@@ -382,10 +499,9 @@ func concEngine(w *run.Worker) {
 		randomRepl(r, sc)
 		nobj := r.Range(1, 3)
 		for i := 0; i < nobj; i++ {
-			o := mkObject(uint64(c.Index)<<4|uint64(w.Index)|1<<41, uint64(i), r.Pick(1, 3, 16), instanceNames[r.Intn(len(instanceNames))])
+			o := addObject(r, sc, mkObject(uint64(c.Index)<<4|uint64(w.Index)|1<<41, uint64(i), r.Pick(1, 3, 16), instanceNames[r.Intn(len(instanceNames))]), instanceNames, 4)
 			o.place = r.Intn(4)
 			o.old = [2]bool{r.Bool(), r.Bool()}
-			sc.objs = append(sc.objs, o)
 		}
 		clients := r.Range(2, 6)
 		c.Desc("conc clients=%d %v", clients, sc)
@@ -509,7 +625,14 @@ func concEngine(w *run.Worker) {
 						c.Logf("        %v", rec.err)
 					}
 				case opPut:
-					putTried[o.obj] = true
+					// An upload of the same contents under another instance name
+					// can make this object present too (replicas keyed without the
+					// instance name; hierarchical stores and parent names).
+					for j := range sc.objs {
+						if sc.objs[j].content == sc.objs[o.obj].content {
+							putTried[j] = true
+						}
+					}
 					if rec.err == nil {
 						putOK[o.obj] = true
 						w.Count("conc_puts_ok", 1)
@@ -523,10 +646,10 @@ func concEngine(w *run.Worker) {
 					w.Count("conc_findmissing_ok", 1)
 					rep := map[string]bool{}
 					for _, d := range rec.missing.Items() {
-						rep[d.GetKey(digest.KeyWithoutInstance)] = true
+						rep[d.GetKey(digest.KeyWithInstance)] = true
 					}
 					for _, i := range o.set {
-						k := sc.objs[i].d.GetKey(digest.KeyWithoutInstance)
+						k := sc.objs[i].d.GetKey(digest.KeyWithInstance)
 						if rep[k] && (initial[i][0] || initial[i][1]) {
 							c.Violation(opn+":reported-missing-although-a-replica-holds-it", "client %d %v reported o%d missing although it was held from the start", cl, o, i)
 						}
